@@ -152,7 +152,7 @@ def faultfree(t, attach=None, force=None) -> Ctx:
     if t.choose(3, "short receiver check interval") == 2:
         # on an in-order link the receiver never starts its check timer, so its interval may be short; the sender's
         # stays far away (the two are separate settings of the check timer provider)
-        cfg.check_s_recv = 0.3
+        cfg.check_s_recv = 0.003  # shorter than any round trip
     if t.choose(4, "prelude") == 3:
         same = bool(t.choose(2, "prelude same request"))
         prelude(w, same_request=same, idle_ms=[0, 5000, 200_000_000][t.choose(3, "prelude idle")],
